@@ -168,7 +168,7 @@ def _index(case, ctx, g):
         ik(i1, i2).to_dense()
         for how in ("load_state_dict", "setter"):
             if how == "load_state_dict":
-                ik.load_state_dict({k_: v_ + 0.5 * util.randn(g, *v_.shape) if k_.startswith(("raw_", "covar_factor")) else v_ for k_, v_ in ik.state_dict().items()})
+                ik.load_state_dict({k_: v_ + 0.5 * util.randn(g, *v_.shape) if k_.startswith(("raw_", "covar_factor")) and "constraint" not in k_ else v_ for k_, v_ in ik.state_dict().items()})
             else:
                 ik.var = ik.var.detach() * 1.7 + 0.1
             cf, var = ik.covar_factor.detach(), ik.var.detach()
